@@ -51,7 +51,20 @@ def leaves_full():
     L += [["NoDisp", ["Diag", 3, "f8", "mixed"]], ["NoDisp", D(2, 3, "c16")]]
     L += annotated_leaves()
     L += library_leaves()
+    L += sliced_leaves()
     return L
+
+
+def sliced_leaves():
+    """selections with repeated positions on one side only, reached through the left product (lazy transpose / adjoint, the wide densify path)"""
+    A = ["s", None, None, None]
+    return [
+        ["slice", D(2, 17), ["i", [1, 1]], A],  # wide: to_dense goes through the left product, which must accumulate the repeated row
+        ["slice", D(17, 2, "c16"), A, ["i", [1, 1, 0]]],
+        ["T", ["slice", D(3, 3, "c16"), ["i", [0, 0, 1]], A]],
+        ["H", ["slice", D(3, 2), ["i", [2, 2, 0]], ["i", [1, 0]]]],
+        ["T", ["slice", D(3, 3), A, ["i", [2, 2, 0]]]],
+    ]
 
 
 def library_leaves():
@@ -122,6 +135,9 @@ SLICE_SPECS = [
     (["i", [1, 0]], ["s", None, None, None]),
     (["i", [0, 1]], ["i", [1, 0]]),
     (["s", 0, 2, None], ["s", 0, 2, None]),
+    (["i", [0, 0, 1]], ["s", None, None, None]),  # a repeated row position, distinct columns (the left product must accumulate)
+    (["s", None, None, None], ["i", [1, 1, 0]]),  # a repeated column position, distinct rows
+    (["i", [-1, 0, -1]], ["i", [0, 1, 1]]),  # repeats on both sides, negative positions
 ]
 
 UNARY = {
